@@ -127,7 +127,7 @@ func (b *BN) Genesis(context.Context, *eth2api.GenesisOpts) (*eth2api.Response[*
 }
 
 func (b *BN) Spec(context.Context, *eth2api.SpecOpts) (*eth2api.Response[map[string]any], error) {
-	m := map[string]any{"SECONDS_PER_SLOT": b.SlotDur, "SLOTS_PER_EPOCH": b.SPE}
+	m := map[string]any{"SECONDS_PER_SLOT": b.SlotDur, "SLOTS_PER_EPOCH": b.SPE, "TARGET_AGGREGATORS_PER_COMMITTEE": uint64(16)}
 	for k, v := range DomainTypes {
 		m[k] = v
 	}
